@@ -14,6 +14,7 @@ def run(ctx):
     ctx.rule("C18.2", "inside that loop the iterated type is what is asked (question.qtype = Record(t)) and what get_ip filters on; results returned only from get_ip")
     ctx.rule("C18.3", "get_record filters on (rtype == requested, name == target); get_ip maps A->V4(address), AAAA->V6(address), anything else -> None")
     ctx.rule("C18.4", "query_nameserver is called from exactly two sites: recursive with (that ip, context.r.upstream_dns_port), forwarding with context.r.forward_address; the address parameter is what the sockets connect to")
+    ctx.rule("C18.6", "the configuration reaches the resolver unchanged: ProtocolMode's FromStr table maps the four documented words to the four modes; the server copies protocol_mode, upstream_dns_port, forward_address and authoritative_only from the same-named CLI fields")
     ctx.rule("C18.5", "resolve() builds the resolver contexts from its own parameters; the binaries pass the CLI fields in the matching positions")
 
     f = prog.body_of(H2IP)
@@ -248,3 +249,41 @@ def run(ctx):
             and A.last_field(a[3]) == "forward_address"
         ctx.check(ok, "C18.5", "caller:%s" % fn.root_key, "passes (.., protocol_mode, upstream_dns_port, forward_address, ..)",
                   "resolve() called with (%s, %s, %s)" % (A.show(a[1]), A.show(a[2]), A.show(a[3])), fn.loc(b))
+
+    # ---------------------------------------------------------------- C18.6
+    pm = [f_ for k_, f_ in prog.fns.items() if k_.endswith("ProtocolMode as std::str::FromStr>::from_str")]
+    if len(pm) != 1:
+        raise A.mir.AnchorMissing("ProtocolMode::from_str not found")
+    pm = pm[0]
+    pmr = A.Resolver(pm)
+    pmc = A.Conds(pm, pmr)
+    table = {}
+    for b, e in A.return_exprs(pm, pmr):
+        pe = A.peel(e)
+        if pe[0] != "agg" or pe[2] != "Ok":
+            continue
+        v = A.peel(dict(pe[3])["0"])
+        words = [A.peel(fc[2][1])[2] for fc in pmc.facts_on_all_paths(b) if fc[0] == "call" and fc[1].endswith("for str>::eq") and fc[3] is True and A.peel(fc[2][1])[0] == "const"]
+        # (a `match` on the text: the word of this arm is the one comparison that succeeded)
+        table[words[0] if len(words) == 1 else "?%s" % words] = v[2] if v[0] == "agg" else "?"
+    want = {"only-v4": "OnlyV4", "prefer-v4": "PreferV4", "prefer-v6": "PreferV6", "only-v6": "OnlyV6"}
+    ctx.check(table == want, "C18.6", "ProtocolMode::from_str:table", "%s" % want, "the protocol mode is parsed as %s" % table, pm.loc())
+    # ... and get_ip looks for the address at the end of the alias chain whatever types the records on the way have
+    gi_ = prog.fn(REC + "get_ip")
+    gir_ = A.Resolver(gi_)
+    fcs = [gir_.call_expr(t, b) for b, t in A.call_blocks(gi_, A.name_is(REC + "follow_cnames"))]
+    okf = len(fcs) == 1 and A.peel(fcs[0][2][0]) == ("param", 1) and A.peel(fcs[0][2][1]) == ("param", 2) and A.peel(fcs[0][2][2])[0] == "agg" and A.peel(fcs[0][2][2])[2] == "Wildcard"
+    ctx.check(okf, "C18.3", "get_ip:chain-any-type", "follow_cnames(rrs, target, ANY): the family filter is get_record's alone",
+              "get_ip follows the chain with %s" % [A.show(x)[:40] for x in (fcs[0][2] if fcs else [])], gi_.loc())
+    # the server hands the CLI fields on under their own names
+    for mkey in ("resolved::main",):
+        m_ = prog.body_of(mkey)
+        mr_ = A.Resolver(m_)
+        aggs = [mr_.rvalue(st["rv"], (b, i)) for b, i, st in A.aggregates(m_, "resolved::ListenArgs")]
+        ctx.floor("C18.6", "ListenArgs built in main", len(aggs), 1)
+        for e in aggs:
+            d_ = dict(e[3])
+            bad = {k_: A.show(d_[k_])[:60] for k_ in ("protocol_mode", "upstream_dns_port", "forward_address", "authoritative_only")
+                   if k_ in d_ and not (A.last_field(d_[k_]) == k_ and any(x[0] == "call" and x[1].endswith("Parser::parse") for x in A.walk(d_[k_])))}
+            ctx.check(not bad and all(k_ in d_ for k_ in ("protocol_mode", "upstream_dns_port", "forward_address")), "C18.6", "main:ListenArgs", "each setting is the same-named CLI field",
+                      "settings taken from elsewhere: %s" % bad, m_.loc())
